@@ -119,13 +119,22 @@ PredictTryWith(e, ar, se) ==
                   [a |-> w.a, sent |-> w.sent, res |-> "initerr", addr |-> 0, reqs |-> r1.reqs \o r2.reqs,
                    frees |-> <<>>, checkaddr |-> TRUE]
 
+\* alloc_slice_try_fill_with / _iter: reserve the slice, run the initialisers (one of which may itself
+\* allocate / release in the same arena: closk / closn as for alloc_try_with), then keep the slice or
+\* give it back with an ordinary deallocation -- which reclaims only if the slice is still the latest block
 PredictTryFill(e, ar, se) ==
-  LET r == Alloc(ar, se, e.size, e.align, Answers(e.ga), FUEL) IN
+  LET ans == Answers(e.ga)
+      r == Alloc(ar, se, e.size, e.align, ans, FUEL) IN
   IF ~r.ok THEN [a |-> r.a, sent |-> r.sent, res |-> "panic", addr |-> 0, reqs |-> r.reqs, frees |-> <<>>, checkaddr |-> TRUE]
-  ELSE IF e.failat < 0
-  THEN [a |-> r.a, sent |-> r.sent, res |-> "ok", addr |-> r.addr, reqs |-> r.reqs, frees |-> <<>>, checkaddr |-> TRUE]
-  ELSE LET w == Dealloc(r.a, r.sent, r.addr, e.size) IN
-       [a |-> w.a, sent |-> w.sent, res |-> "initerr", addr |-> 0, reqs |-> r.reqs, frees |-> <<>>, checkaddr |-> TRUE]
+  ELSE LET rest == SubSeq(ans, Len(r.reqs) + 1, Len(ans))
+           r2 == IF e.closk = 0 THEN [ok |-> TRUE, a |-> r.a, sent |-> r.sent, reqs |-> <<>>, addr |-> 0]
+                 ELSE Alloc(r.a, r.sent, IF e.closk = 3 THEN 0 ELSE e.closn, 1, rest, FUEL)
+           r3 == IF e.closk = 2 /\ r2.ok THEN Dealloc(r2.a, r2.sent, r2.addr, e.closn)
+                 ELSE [a |-> r2.a, sent |-> r2.sent]
+       IN IF e.failat < 0
+          THEN [a |-> r3.a, sent |-> r3.sent, res |-> "ok", addr |-> r.addr, reqs |-> r.reqs \o r2.reqs, frees |-> <<>>, checkaddr |-> TRUE]
+          ELSE LET w == Dealloc(r3.a, r3.sent, r.addr, e.size) IN
+               [a |-> w.a, sent |-> w.sent, res |-> "initerr", addr |-> 0, reqs |-> r.reqs \o r2.reqs, frees |-> <<>>, checkaddr |-> TRUE]
 
 PredictDealloc(e, ar, se) ==
   LET w == Dealloc(ar, se, e.ptr, e.len) IN
